@@ -12,11 +12,10 @@ from . import englib as E
 PROP = "C18"
 REQ = ("From RZ Require Import Base.Prelude Model.Codec Model.Engine Model.SecFramer Corr.C03Corr Corr.EngCorr "
        "Corr.C18Corr.")
-THEOREMS = ("C18_enc_roundtrip_small, C18_enc_large_batch_*, C18_enc_roundtrip_any_size_refuted, C18_tamper_prefix_safety, "
+THEOREMS = ("C18_enc_roundtrip_any_size, C18_sender_emits, C18_tamper_prefix_safety, "
             "C18_tamper_detected, C18_tamper_messages, C18_no_cleartext, C18_heartbeat_decodable_refuted, "
             "C18_sessions_differ_refuted, C18_sessions_differ_noise")
 
-SIG_WRAP = "C18:curve-record-length-wrap"
 SIG_HB = "C18:heartbeat-bypasses-record-layer"
 SIG_SESS = "C18:curve-static-session-keys"
 
@@ -78,14 +77,19 @@ def base_case(rng, mech=None):
             "seed": rng.randrange(1, 60000), "maxsz": -1, "steps": [], "imuts": [], "bmuts": [], "cuts": []}
 
 
+def n_records(pt):
+    """records of one write call: one per 65519-byte chunk of the plaintext"""
+    return (pt + MAX_PT - 1) // MAX_PT
+
+
 def stream_len(c):
-    """wire length of the records of an honest flow as the model computes it (plaintext + 16 + 2)"""
+    """wire length of an honest flow as the model computes it (every chunk + 16-byte tag + 2-byte prefix)"""
     n = 0
     for st in c["steps"]:
         pt = step_pt(st)
-        if pt is not None and not (c["mech"] == "noise" and pt > MAX_PT):
-            n += pt + 18
-        elif pt is None:
+        if pt is not None:
+            n += pt + 18 * n_records(pt)
+        else:
             n += 9
     return n
 
@@ -122,13 +126,16 @@ def gen_honest(rng, big):
 
 
 def rec_bounds(c):
-    """(start, end) byte offsets of the records of a clean small-record flow, in emission order"""
+    """(start, end) byte offsets of the records of a heartbeat-free flow, in emission order"""
     out = []
     pos = 0
     for st in c["steps"]:
-        n = step_pt(st) + 18
-        out.append((pos, pos + n))
-        pos += n
+        pt = step_pt(st)
+        while pt > 0:
+            n = min(pt, MAX_PT) + 18
+            out.append((pos, pos + n))
+            pos += n
+            pt -= min(pt, MAX_PT)
     return out
 
 
@@ -136,7 +143,7 @@ def gen_one_mut(rng, c, seq, total):
     """one mutation: ('i', obj) item level or ('b', obj) byte level (relative to the current stream)"""
     bounds = rec_bounds(c)
     r = rng.random()
-    n = len(seq)
+    n = len(bounds)
     if r < 0.3 and n > 0:
         op = rng.choice(["drop", "dup", "swap"] if n > 1 else ["drop", "dup"])
         i = rng.randrange(n - 1) if op == "swap" else rng.randrange(n)
@@ -165,20 +172,32 @@ def gen_one_mut(rng, c, seq, total):
     return ("b", {"op": "inject", "at": at, "data": data})
 
 
-def gen_mutated(rng, double):
+def gen_mutated(rng, double, big=False):
     c = base_case(rng)
+    nbig = 0
     for _ in range(rng.choice([2, 3, 4, 5])):
-        if rng.random() < 0.8:
+        q = rng.random()
+        if big and nbig == 0 and q < 0.4:
+            nbig += 1
+            if rng.random() < 0.5:
+                # one message sealed in two or three records
+                c["steps"].append({"app": [{"len": rng.choice([65511, 70000, 131100]), "seed": rng.randrange(256)}]})
+            else:
+                # three messages in one write call: the second one spans the record boundary
+                c["steps"].append({"batch": [gen_msg(rng, [rng.choice([21841, 30000])], 1) for _ in range(3)]})
+        elif q < 0.8:
             c["steps"].append({"app": gen_msg(rng, SMALL)})
         else:
             c["steps"].append({"batch": [gen_msg(rng, SMALL[:8]) for _ in range(rng.choice([1, 2]))]})
     total = stream_len(c)
-    seq = list(range(len(c["steps"])))
+    seq = None
     for _ in range(2 if double else 1):
         kind, m = gen_one_mut(rng, c, seq, total)
         if kind == "i" and not c["bmuts"]:
             c["imuts"].append(m)
         elif kind == "b":
+            if m in c["bmuts"] and m["op"] == "flip":
+                m = dict(m, bit=(m["bit"] + 1) % 8)
             c["bmuts"].append(m)
         else:
             c["bmuts"].append({"op": "flip", "at": rng.randrange(max(total, 1)), "bit": rng.randrange(8)})
@@ -193,6 +212,19 @@ def all_single_mutations(rng):
         c0 = base_case(rng, mech)
         c0["steps"] = [{"app": [{"len": 40, "seed": 1}]}, {"app": [{"more": True, "len": 8, "seed": 2}, {"len": 300, "seed": 3}]},
                        {"batch": [[{"len": 16, "seed": 4}], [{"len": 0, "seed": 0}]]}]
+        # a message sealed in two records between two small ones: every record-level mutation
+        c1 = base_case(rng, mech)
+        c1["steps"] = [{"app": [{"len": 40, "seed": 1}]}, {"app": [{"len": 70000, "seed": 2}]}, {"app": [{"len": 9, "seed": 3}]}]
+        for i in (range(4) if mech == "curve" else [1, 2]):
+            out.append(dict(c1, imuts=[{"op": "drop", "i": i}]))
+            out.append(dict(c1, imuts=[{"op": "dup", "i": i}]))
+            if i < 3:
+                out.append(dict(c1, imuts=[{"op": "swap", "i": i}]))
+        b1 = rec_bounds(c1)
+        out.append(dict(c1, bmuts=[{"op": "flip", "at": b1[1][1] - 1, "bit": 0}]))
+        out.append(dict(c1, bmuts=[{"op": "flip", "at": b1[2][0] + 1, "bit": 7}]))
+        out.append(dict(c1, bmuts=[{"op": "trunc", "at": b1[2][0]}]))
+        out.append(dict(c1, bmuts=[{"op": "trunc", "at": b1[2][1] - 1}]))
         bounds = rec_bounds(c0)
         total = bounds[-1][1]
         for i in range(3):
@@ -242,13 +274,13 @@ def gen_cases(rng, tier):
     cases = C.load_corpus(PROP, "cases")
     # boundary sweep, both mechanisms: every EDGE size once on its own, followed by a small message
     for mech in ("curve", "noise"):
-        for n in (EDGE if not quick else [65510, 65511, 65526, 65527, 70000]):
+        for n in (EDGE if not quick else [65510, 65511, 70000]):
             c = base_case(rng, mech)
             c["steps"] = [{"app": [{"len": 20, "seed": 1}]}, {"app": [{"len": n, "seed": 2}]}, {"app": [{"len": 5, "seed": 3}]}]
             c["cuts"] = gen_cuts(rng, stream_len(c))
             cases.append(c)
     cases += all_single_mutations(rng)
-    n_h, n_hb, n_m1, n_m2, n_big = (50, 28, 70, 60, 12) if quick else (800, 300, 1800, 1800, 240)
+    n_h, n_hb, n_m1, n_m2, n_big, n_mb = (40, 24, 60, 50, 8, 6) if quick else (800, 300, 1800, 1800, 120, 60)
     for _ in range(n_h):
         cases.append(gen_honest(rng, big=False))
     for _ in range(n_big):
@@ -259,6 +291,8 @@ def gen_cases(rng, tier):
         cases.append(gen_mutated(rng, double=False))
     for _ in range(n_m2):
         cases.append(gen_mutated(rng, double=True))
+    for _ in range(n_mb):
+        cases.append(gen_mutated(rng, double=rng.random() < 0.4, big=True))
     for mech in ("curve", "noise"):
         for d in (0, 1):
             for _ in range(1 if quick else 6):
@@ -342,49 +376,44 @@ def oracle(c, o):
     delivered, other = E.deliveries(rcv)
     delivered = [[[7] + fr for fr in m] for m in delivered]
     rcv_err = any(r[0] == 8 for r in rcv)
-    # the records in emission order and the messages each carries
-    recs = []          # (step index, [messages])
-    raw_before = {}    # record position -> a cleartext PING was emitted before it
+    # records in emission order (ciphertext lengths) and the messages with their end offsets in the plaintext stream
+    rec_ct = []        # ciphertext length of every record
+    msgs = []          # (end offset in the concatenated plaintext, message rows, a cleartext PING was emitted before it)
     saw_raw = False
+    pt_off = 0
     for i, (st, r) in enumerate(zip(steps, snd)):
         if r[0] == 10:
-            raw_before[len(recs)] = saw_raw
-            # COMMAND frames (a PING travelling inside a record) are consumed by the engine, not delivered
-            recs.append((i, [m for m in o["sent"][i] if not any(fr[2] for fr in m)]))
+            if 999999 in r[4:]:
+                return ("a write call emitted bytes that are not a sequence of length-prefixed records", None)
+            rec_ct += r[4:]
+            groups = [st["app"]] if "app" in st else st["batch"]
+            for g, rows_g in zip(groups, o["sent"][i]):
+                pt_off += sum(enc_len(f) for f in g)
+                # COMMAND frames (a PING travelling inside a record) are consumed by the engine, not delivered
+                if not any(fr[2] for fr in rows_g):
+                    msgs.append((pt_off, rows_g, saw_raw))
         elif r[0] == 11:
             saw_raw = True
-        elif r[0] == 12:
-            pt = step_pt(st)
-            if "tick" in st:
-                continue
-            if not (c["mech"] == "noise" and pt > MAX_PT):
-                return ("the sender refused a batch of %d plaintext bytes" % pt, None)
+        elif r[0] == 12 and "tick" not in st:
+            # every batch the endpoint accepted must go out, whatever its size (both mechanisms)
+            return ("the sender refused a batch of %d plaintext bytes" % step_pt(st), None)
+        elif r[0] == 13 and "tick" not in st and not any(x[0] == 12 for x in snd[:i]):
+            return ("a write call emitted nothing for %d plaintext bytes" % step_pt(st), None)
     mutated = bool(c.get("imuts") or c.get("bmuts"))
-    all_msgs = [m for (_, ms) in recs for m in ms]
+    all_msgs = [m for (_, m, _) in msgs]
 
     if not mutated:
-        # --- decodability of everything the endpoint emitted
+        # --- decodability of everything the endpoint emitted, of any size
         limited = c.get("maxsz", -1) >= 0
         if delivered != all_msgs[:len(delivered)]:
             return ("the peer delivered something that was not sent (wrong, partial or duplicated message)", None)
         if not limited and (len(delivered) < len(all_msgs) or rcv_err):
-            # find the first record that was not fully delivered
-            k = 0
-            cnt = 0
-            for pos, (i, ms) in enumerate(recs):
-                if cnt + len(ms) > len(delivered):
-                    k = pos
-                    break
-                cnt += len(ms)
-            step_i = recs[k][0]
-            pt = step_pt(steps[step_i])
-            if raw_before.get(k):
+            if len(delivered) < len(all_msgs) and msgs[len(delivered)][2] or (len(delivered) == len(all_msgs) and saw_raw):
                 return ("after a heartbeat PING (written outside the record layer) the peer no longer decodes the "
-                        "sender's records: record %d not delivered%s" % (k, ", PeerError" if rcv_err else ", stalled"), SIG_HB)
-            if c["mech"] == "curve" and pt > MAX_PT:
-                return ("CURVE batch of %d plaintext bytes: the sender returned Ok (length prefix %d for a %d-byte "
-                        "ciphertext) and the peer could not decode it" % (pt, snd[step_i][1], snd[step_i][2]), SIG_WRAP)
-            return ("an accepted batch (%d plaintext bytes) was not delivered by the peer" % pt, None)
+                        "sender's records: message %d not delivered%s" % (len(delivered), ", PeerError" if rcv_err else ", stalled"),
+                        SIG_HB)
+            return ("an accepted batch was not delivered by the peer: %d of %d messages delivered%s"
+                    % (len(delivered), len(all_msgs), ", PeerError" if rcv_err else ""), None)
         if saw_raw and f98[3] == 1 and back == 0:
             return ("the heartbeat PING emitted on an encrypted link was not decoded by the peer (no PONG): the sender "
                     "is left waiting_for_pong%s" % (" and closes with Timeout" if f97 and f97[1] == 5 else ""), SIG_HB)
@@ -393,8 +422,8 @@ def oracle(c, o):
                     SIG_HB)
         return None
 
-    # --- tampered stream: exactly the clean prefix is delivered, each message whole
-    seq = list(range(len(recs)))
+    # --- tampered stream: exactly the messages complete in the clean prefix of records are delivered, each whole
+    seq = list(range(len(rec_ct)))
     for m in c.get("imuts", []):
         i = m["i"]
         if m["op"] == "drop" and i < len(seq):
@@ -403,31 +432,32 @@ def oracle(c, o):
             seq.insert(i, seq[i])
         elif m["op"] == "swap" and i + 1 < len(seq):
             seq[i], seq[i + 1] = seq[i + 1], seq[i]
-    lens = [snd[recs[j][0]][2] + 2 for j in seq]
+    lens = [rec_ct[j] + 2 for j in seq]
     total = sum(lens)
     clean = total
-    length_changed = False
-    for m in c.get("bmuts", []):
+    bmuts = c.get("bmuts", [])
+    if len(bmuts) == 2 and bmuts[0] == bmuts[1] and bmuts[0]["op"] == "flip":
+        bmuts = []                            # the same bit flipped twice: the stream is unchanged
+    for m in bmuts:
         if m["op"] == "flip" and m["at"] < total:
             clean = min(clean, m["at"])
         elif m["op"] == "trunc" and m["at"] <= total:
             clean = min(clean, m["at"])
             total = m["at"]
-            length_changed = True
         elif m["op"] == "inject" and m["at"] <= total:
             clean = min(clean, m["at"])
             total += len(m["data"]["bytes"]) if "bytes" in m["data"] else m["data"]["len"]
-            length_changed = True
     k = 0
     pos = 0
     while k < len(seq) and seq[k] == k and pos + lens[k] <= clean:
         pos += lens[k]
         k += 1
-    expect = [m for (_, ms) in recs[:k] for m in ms]
+    clean_pt = sum(rec_ct[j] - 16 for j in range(k))
+    expect = [m for (end, m, _) in msgs if end <= clean_pt]
     if delivered != expect:
         if delivered == expect[:len(delivered)]:
-            return ("the untouched records before the first modification were not all delivered (%d of %d messages)"
-                    % (len(delivered), len(expect)), None)
+            return ("the messages complete in the untouched records before the first modification were not all delivered "
+                    "(%d of %d)" % (len(delivered), len(expect)), None)
         return ("after tampering the peer delivered a message outside the untouched prefix (wrong, partial, replayed "
                 "or reordered): %d delivered, %d expected" % (len(delivered), len(expect)), None)
     closed = f99[1] == 5
@@ -435,10 +465,10 @@ def oracle(c, o):
         return ("PeerError and the Closed phase do not go together", None)
     # an error is mandatory when a complete wrong record is certainly present
     must_err = False
-    if not c.get("bmuts") and k < len(seq):
+    if not bmuts and k < len(seq):
         must_err = True                       # dropped (not last) / duplicated / swapped record
-    for m in c.get("bmuts", []):
-        if m["op"] == "flip" and len(c["bmuts"]) == 1 and not c.get("imuts") and m["at"] < total:
+    for m in bmuts:
+        if m["op"] == "flip" and len(bmuts) == 1 and not c.get("imuts") and m["at"] < total:
             off = m["at"] - pos
             if k < len(seq) and off >= 2:
                 must_err = True               # flip inside tag or body of a complete record
@@ -505,7 +535,7 @@ def main(argv):
 
     C.differential(res, PROP, "c18", cases, to_coq, REQ, "c18_mismatches", "c18_model", oracle_np,
                    shrink=shrink, nontrivial=nontrivial, theorems_note=THEOREMS, shards=16)
-    for s in (SIG_WRAP, SIG_HB, SIG_SESS):
+    for s in (SIG_HB, SIG_SESS):
         res.notes.append("finding %s reproduced on %d cases" % (s, hits.get(s, 0)))
     res.extra["suspected_defects_reproduced"] = hits
     return res.finish(level="proof", assumptions=[
